@@ -15,6 +15,7 @@ Decided (shape engine: spaces + dimensions + provenance tags)
       slot's channel for the spike's template -> micrometres per spike
   +   U1-U4 also: no result is memoised (early return from storage that outlives the call) under a key that ignores one of the arguments
   +   U1: no display option (template_scaling, tagged `display-scale`) enters the amplitudes in physical units
+  +   U1: the waveforms are unwhitened with the FULL inverse whitening matrix (a product with `wmi[np.ix_(c, c)]` is tagged `subblock` and refused)
 Not decided: numeric equality, NaN propagation, the clipping of negative feature values.
 """
 import ast
@@ -92,6 +93,10 @@ def run(ctx):
                              'in physical units are off by that factor whenever the option is set' % (lab, ', '.join(disp)))
             else:
                 ctx.holds('C09.U1', gat, '%s: no display option (template_scaling) enters the amplitudes in physical units' % lab, lab + ' display scaling')
+            subb = [nm_ for nm_, x_ in (('spike amplitudes', sa), ('rescaled waveforms', tv), ('template amplitudes', ta)) if isinstance(x_, Arr) and isinstance(x_.elem, Q) and 'subblock' in x_.elem.tags]
+            if subb:
+                ctx.violated('C09.U1', gat, lab + ' unwhitening', '%s: the %s are computed from waveforms unwhitened with a SUB-BLOCK of the inverse whitening matrix (`wmi[np.ix_(c, c)]`): the '
+                             'contribution of the channels left out is dropped, the unwhitened waveform (and its largest peak-to-peak channel) is not that of the template' % (lab, ', '.join(subb)))
             ctx.check({'ptp:Samp', 'max:Chan'} <= set(sa.elem.tags), 'C09.U1', gat, lab + ' spike amplitudes provenance',
                       '%s: the template amplitude is the largest channel peak-to-peak (max over channels of max-min over samples)' % lab,
                       '%s: the template amplitude is %s, expected the max over channels of the peak-to-peak over samples' % (lab, sorted(sa.elem.tags)), value=getattr(sa, 'elem', sa))
